@@ -299,7 +299,11 @@ func (enc *jsonEncoder) AppendString(val string) {
 func (enc *jsonEncoder) AppendTimeLayout(time time.Time, layout string) {
 	enc.addElementSeparator()
 	enc.buf.AppendByte('"')
-	enc.buf.AppendTime(time, layout)
+	// The layout and the zone name are caller-controlled and may contain
+	// quotes, backslashes or control characters: escape the formatted time
+	// like any other string.
+	var scratch [64]byte
+	enc.safeAddByteString(time.AppendFormat(scratch[:0], layout))
 	enc.buf.AppendByte('"')
 }
 
